@@ -1,6 +1,8 @@
 HOOK_COMMITS = []
 REPO_FIX_COMMITS = []
 ENGINES = [
+    dict(name="hheap", path="sim/eng_hheap.c", serves_properties=["C02", "C10"], kind_free_text="seeded operation histories on stand-alone hashheaps with every ordering the library installs, colliding and re-inserted caller keys, map+order reference model and structural well-formedness after every operation"),
+    dict(name="mempool", path="sim/eng_mempool.c", serves_properties=["C20", "C10"], kind_free_text="seeded alloc/free histories on dynamic and static thread-local pools (real threads under the baton scheduler) against an address/stamp ledger across every expansion threshold"),
     dict(name="events", path="sim/eng_events.c", serves_properties=["C01", "C10"], kind_free_text="seeded plans of schedule/cancel/reschedule/reprioritise/pattern/clear steps issued from outside and from inside running actions, real event queue vs exact executable model"),
 ]
 NOT_APPLICABLE = [
@@ -13,4 +15,12 @@ TEXTS = {
         technique="deterministic simulation: seeded operation plans (outside and inside running actions) against an exact executable model of the (time, -priority, issue order) queue",
         level_text="seeded exploration: every run drives the real event queue through a generated plan and compares every dispatch, clock value, current-event query and query/return value with an exact model; a clean batch is evidence, not proof",
         level_note="trusts the 150-line model in sim/eng_events.c; programs are sampled, not enumerated; outside a running action cmb_event_current() is only probed, not judged"),
+    "C02": dict(engine="hheap", design_ref="DESIGN.md section 6, C02",
+        technique="deterministic simulation: seeded operation histories against a map+order reference model, structural invariant after every step",
+        level_text="seeded exploration of operation histories on the real hashheap with each ordering function the library installs; return values, minimum-ness, payload identity, count and the heap/hash structure are checked after every operation",
+        level_note="trusts the reference model in sim/eng_hheap.c and reads the public struct fields of cmi_hashheap; caller keys are kept disjoint from automatically issued keys (unique-key precondition)"),
+    "C20": dict(engine="mempool", design_ref="DESIGN.md section 6, C20",
+        technique="deterministic simulation: seeded allocation histories (threads parked and released by a seeded baton scheduler for thread-local pools) against an address/stamp ledger",
+        level_text="seeded exploration of alloc/free histories driving the live population across every k*incr_num boundary and across 63/64/65 and 127/128 chunks, for dynamic pools and for static thread-local pools used from one or two real threads",
+        level_note="trusts the ledger (sorted address array with neighbour overlap check, full-size stamps); thread interleaving is at operation granularity"),
 }
